@@ -79,7 +79,7 @@ def deep(n, open_="[", close="]", leaf="1"):
 # ----------------------------------------------------------------------------------------
 # CLI
 
-def run_cli(binary, rule, data, form, timeout=40):
+def run_cli(binary, rule, data, form, timeout=40, env=None):
     """form: 'arg' (data as 2nd argument), 'stdin' (no 2nd argument), 'dash' (2nd argument '-')."""
     argv = [binary]
     stdin = None
@@ -95,7 +95,11 @@ def run_cli(binary, rule, data, form, timeout=40):
             # after `--` a lone '-' is still the positional value "-"
             argv.append("-")
     try:
-        p = subprocess.run(argv, input=stdin if stdin is not None else b"", stdout=subprocess.PIPE, stderr=subprocess.PIPE, timeout=timeout)
+        e = None
+        if env:
+            e = dict(os.environ)
+            e.update(env)
+        p = subprocess.run(argv, input=stdin if stdin is not None else b"", stdout=subprocess.PIPE, stderr=subprocess.PIPE, timeout=timeout, env=e)
         return p.returncode, p.stdout, p.stderr
     except subprocess.TimeoutExpired:
         return None, b"", b"timeout"
@@ -258,6 +262,42 @@ def cli_lane(pid, tier, seed, agg, meta, profiles=("debug", "release")):
                     rep["violations"].append({"monitor": "c18.chain", "sig": "chain", "rule": r2, "data": {"first_rule": r1, "first_data": d1},
                                               "expected": {"stdout_lines": want}, "got": {"exit1": rc1, "exit2": rc2, "stdout2": out2.decode("utf8", "replace")[:500], "stderr2": err2.decode("utf8", "replace")[:300]},
                                               "note": "piping the output into a second invocation differs from evaluating on the parsed output", "lane": "cli-" + profile, "direct": False, "count": 1})
+        # environment independence: the command's output is fixed by the two texts, so it must not change
+        # when every environment variable it asks for exists, the clock jumps / stands still, random
+        # bytes are constant and read-only opens fail (LD_PRELOAD interposer, armed for the whole process)
+        if pid == "C18" and profile == profiles[-1]:
+            so = build_shim()
+            nenv = 120 if tier == "quick" else 1500
+            pick = [i for i, (r, d) in enumerate(pairs) if len(r) < 5000 and len(d) < 5000 and "\x00" not in r + d][:nenv]
+            m = mons.setdefault("c18.environment-independence", {"observed": 0, "judged": 0, "unjudged": 0, "violations": 0})
+
+            def env_one(i):
+                r, d = pairs[i]
+                f = ["arg", "stdin", "dash"][i % 3]
+                base = run_cli(binary, r, d, f)
+                outs = []
+                for md in ("A", "B"):
+                    extra = {"LD_PRELOAD": so, "JL_SHIM_ALWAYS": "1", "JL_SHIM_MODE": md, "JSONLOGIC": "1", "NO_COLOR": "1", "CLICOLOR_FORCE": "1", "RUST_LOG": "trace", "LANG": "tr_TR.UTF-8", "COLUMNS": "20"}
+                    outs.append((md, run_cli(binary, r, d, f, env=extra)))
+                return i, f, base, outs
+
+            with ThreadPoolExecutor(max_workers=O.NCPU) as ex:
+                for i, f, base, outs in ex.map(env_one, pick):
+                    r, d = pairs[i]
+                    for md, got in outs:
+                        rep["evaluations"] += 1
+                        m["observed"] += 1
+                        if base[0] is None or got[0] is None:
+                            m["unjudged"] += 1
+                            continue
+                        m["judged"] += 1
+                        hashes.add(hkey("env", r, d, f))
+                        if (got[0], got[1]) != (base[0], base[1]):
+                            m["violations"] += 1
+                            rep["violations"].append({"monitor": "c18.environment-independence", "sig": "output-depends-on-environment:mode-%s:%s" % (md, f), "rule": r, "data": d,
+                                                      "expected": {"exit": base[0], "stdout": base[1].decode("utf8", "replace")[:400]}, "got": {"exit": got[0], "stdout": got[1].decode("utf8", "replace")[:400], "stderr": got[2].decode("utf8", "replace")[:300]},
+                                                      "note": "the command's exit status / standard output changed when the environment variables, the clock, the random source and read-only opens answered differently (mode %s)" % md,
+                                                      "lane": "cli-" + profile, "direct": False, "count": 1})
         # exit status 0 must mean that the result line was delivered: with a stdout that cannot be
         # written (/dev/full) a successful evaluation must not end with status 0
         if pid == "C18":
@@ -596,21 +636,30 @@ def py_lane(pid, tier, seed, agg, meta, profiles=("debug", "release")):
     d = os.path.join(O.OUT, pid, "py")
     os.makedirs(d, exist_ok=True)
     child = os.path.join(O.VERIF, "pylane", "pymod_child.py")
-    for profile in profiles:
+    variants = [(p_, "") for p_ in profiles]
+    if pid == "C19":
+        # the same workload again with the environment answering differently (see pymod_child.py)
+        variants += [(profiles[0], "A"), (profiles[-1], "B")]
+    for profile, perturb in variants:
         t0 = time.time()
         pkg_root = O.build_py(profile)
+        lane_name = "py-" + profile + ("-env" + perturb if perturb else "")
         nproc = min(8, O.NCPU)
         reports, failures = [], []
 
         def run_child(k, skip_until=-1, attempt=0):
-            cfile = os.path.join(d, "cases-%s-%d.json" % (profile, k))
-            ofile = os.path.join(d, "out-%s-%d-%d.json" % (profile, k, attempt))
+            cfile = os.path.join(d, "cases-%s%s-%d.json" % (profile, perturb, k))
+            ofile = os.path.join(d, "out-%s%s-%d-%d.json" % (profile, perturb, k, attempt))
             if attempt == 0:
                 mine = [{"i": i, "rule": pairs[i][0], "data": pairs[i][1], "oracle": oracle[i]} for i in range(len(pairs)) if i % nproc == k]
                 json.dump({"property": pid, "seed": seed, "tier": tier, "cases": mine}, open(cfile, "w"))
             env = dict(O.BASE_ENV)
             env["PYTHONPATH"] = pkg_root
             env["JL_LIBCALL"] = jlmon
+            if perturb:
+                env["JL_PY_PERTURB"] = perturb
+                env["JL_SHIM_MODE"] = perturb
+                env["LD_PRELOAD"] = build_shim()
             p = subprocess.Popen([sys.executable, child, cfile, ofile, str(skip_until)], env=env, stdout=subprocess.PIPE, stderr=subprocess.PIPE, preexec_fn=O.die_with_parent)
             try:
                 out, err = p.communicate(timeout=900 if tier == "quick" else 7200)
@@ -636,7 +685,7 @@ def py_lane(pid, tier, seed, agg, meta, profiles=("debug", "release")):
                                        "expected": "a value or an ordinary exception" + (" within 20 s of CPU time" if cpu else ""),
                                        "got": {"exit": p.returncode, "call": last.get("call"), "stderr": etext[-600:]},
                                        "note": "the call into the extension did not return within its CPU budget" if cpu else "the Python interpreter crashed during this call",
-                                       "lane": "py-" + profile, "direct": False, "count": 1}]}
+                                       "lane": lane_name, "direct": False, "count": 1}]}
                 more = []
                 if attempt < 6 and isinstance(last.get("case"), int):
                     more = run_child(k, last["case"], attempt + 1)
@@ -654,10 +703,13 @@ def py_lane(pid, tier, seed, agg, meta, profiles=("debug", "release")):
                 n = r.get("evaluations", 0)
                 r["monitors"] = {"c01.python": {"observed": n, "judged": n, "unjudged": 0, "violations": len(r["violations"])}}
             for v in r.get("violations", []):
-                v["lane"] = "py-" + profile
+                v["lane"] = lane_name
+                if perturb:
+                    v["sig"] = "env-%s:%s" % (perturb, v["sig"])
+                    v["note"] = (v.get("note") or "") + " [in a process where every environment variable looked up during the import / a call exists (mode %s)]" % perturb
                 v["direct"] = False
-            O.merge_report(agg, r, "py-" + profile)
-        O.lane_record(agg, "py-" + profile, "real CPython extension (%s profile) + working-tree __init__.py in a child interpreter vs library-as-a-process" % profile, reports, failures, time.time() - t0)
+            O.merge_report(agg, r, lane_name)
+        O.lane_record(agg, lane_name, "real CPython extension (%s profile) + working-tree __init__.py in a child interpreter vs library-as-a-process%s" % (profile, "; environment lookups perturbed (Python os.environ wrapper + LD_PRELOAD interposer armed around each call)" if perturb else ""), reports, failures, time.time() - t0)
 
 
 # ----------------------------------------------------------------------------------------
